@@ -1233,3 +1233,285 @@ TWINS += [
     {"name": "typed:if-range-tag-test-as-flag", "edits": [(H, "    if not value.lstrip().startswith(('\"', 'W/\"', 'w/\"')):\n", "    is_tag = value.lstrip().startswith(('\"', 'W/\"', 'w/\"'))\n    if not is_tag:\n")]},
     {"name": "typed:if-range-tag-returned-first", "edits": [(H, IFR_FIX, "    if value.lstrip().startswith(('\"', 'W/\"', 'w/\"')):\n        return ds.IfRange(unquote_etag(value)[0])\n    date = parse_date(value)\n    if date is not None:\n        return ds.IfRange(date=date)\n")]},
 ]
+
+# ---- stress round (fresh refactorings in ordinary maintainer style, written blind to the checker) ------------------------
+# shapes that tripped a rule at first, each with a neighbour of my own and the property broken inside the same shape
+SCAN_Q = '''            elif rest[:1] == '"':
+                pos = 1
+                length = len(rest)
+
+                while pos < length:
+                    if rest[pos : pos + 2] in {"\\\\\\\\", '\\\\"'}:
+                        # Consume escaped slashes and quotes.
+                        pos += 2
+                    elif rest[pos] == '"':
+                        # Stop at an unescaped quote.
+                        parts.append((pk, rest[: pos + 1]))
+                        rest = rest[pos + 1 :]
+                        break
+                    else:
+                        # Consume any other character.
+                        pos += 1
+'''
+PA_BODY = '''    if not value:
+        return None
+    try:
+        seconds = int(value)
+    except ValueError:
+        return None
+    if seconds < 0:
+        return None
+    try:
+        return timedelta(seconds=seconds)
+    except OverflowError:
+        return None
+'''
+Q_ESCAPE = '''    value_str = value_str.replace("\\\\", "\\\\\\\\").replace('"', '\\\\"')\n'''
+_PO_DEF = "def parse_options_header(value: str | None)"
+
+
+def _q_needs_quotes(quant: str) -> list:
+    return [(H, Q_TAIL, f'''    needs_quotes = not allow_token or {quant}(ch not in _token_chars for ch in value_str)
+
+    if not needs_quotes:
+        return value_str
+
+    value_str = value_str.replace("\\\\", "\\\\\\\\").replace('"', '\\\\"')
+    return f'"{{value_str}}"'
+''')]
+
+
+def _unq_table(table: str, hoisted: str = "") -> list:
+    return [(H, OPT_UNQ, "            pv = _unquote_parameter_value(pv)\n"), (H, _PO_DEF, f'''{hoisted}def _unquote_parameter_value(value: str) -> str:
+    value = value[1:-1]
+
+    for escaped, char in {table}:
+        value = value.replace(escaped, char)
+
+    return value
+
+
+{_PO_DEF}''')]
+
+
+_ESC_ALL = '''(("\\\\\\\\", "\\\\"), ('\\\\"', '"'), ("%22", '"'))'''
+_ESC_NO_BACKSLASH = '''(('\\\\"', '"'), ("%22", '"'))'''
+
+
+def _q_escape_loop(order: str) -> list:
+    return [(H, Q_ESCAPE, f'''    for char in {order}:
+        value_str = value_str.replace(char, "\\\\" + char)
+''')]
+
+
+def _range_static_helper(last: str) -> list:
+    return [(R, RANGE_TO, f'''        return f"{{self.units}}={{','.join(map(self._dump_range, self.ranges))}}"
+
+    @staticmethod
+    def _dump_range(rng: tuple[int, int | None]) -> str:
+        begin, end = rng
+
+        if end is not None:
+            return f"{{begin}}-{{{last}}}"
+
+        if begin < 0:
+            return str(begin)
+
+        return f"{{begin}}-"
+''')]
+
+
+def _range_starmap_helper(last: str) -> list:
+    return [_IMP_R, (R, RANGE_TO, '''        return f"{self.units}={','.join(itertools.starmap(_dump_range, self.ranges))}"
+'''), (R, "class IfRange:\n", f'''def _dump_range(begin: int, end: int | None) -> str:
+    if end is not None:
+        return f"{{begin}}-{{{last}}}"
+
+    return f"{{begin}}-" if begin >= 0 else str(begin)
+
+
+class IfRange:
+''')]
+
+
+def _scan_regex(inner: str) -> list:
+    return [(H, SCAN_Q, '''            elif (m := _parameter_quoted_value_re.match(rest)) is not None:
+                parts.append((pk, m.group()))
+                rest = rest[m.end() :]
+'''), (H, _PO_DEF, f'''_parameter_quoted_value_re = re.compile(r'"{inner}"', re.DOTALL)
+
+
+{_PO_DEF}''')]
+
+
+def _pa_suppress(make: str) -> list:
+    return [(H, "import email.utils\n", "import contextlib\nimport email.utils\n"), (H, PA_BODY, f'''    if not value:
+        return None
+    with contextlib.suppress(ValueError, OverflowError):
+        seconds = int(value)
+        if seconds >= 0:
+            return {make}
+    return None
+''')]
+
+
+def _hs_separator(sep: str) -> list:
+    return [(S, HS_TO_HEADER, '        return _SEPARATOR.join(map(http.quote_header_value, self._headers))\n'), (S, "class HeaderSet(", f'_SEPARATOR = "{sep}"\n\n\nclass HeaderSet(')]
+
+
+TWINS += [
+    {"name": "stress:quote-needs-quotes-flag-any-not-in", "edits": _q_needs_quotes("any")},
+    {"name": "stress:options-unquote-helper-loop-over-tuple-table", "edits": _unq_table(_ESC_ALL)},
+    {"name": "stress:options-unquote-helper-loop-over-list-table", "edits": _unq_table("[" + _ESC_ALL[1:-1] + "]")},
+    {"name": "stress:options-unquote-helper-loop-over-module-table", "edits": _unq_table("_parameter_escapes", f"_parameter_escapes = {_ESC_ALL}\n\n\n")},
+    {"name": "stress:quote-escapes-in-a-loop-over-the-two-characters", "edits": _q_escape_loop('''("\\\\", '"')''')},
+    {"name": "stress:range-writer-map-static-helper", "edits": _range_static_helper("end - 1")},
+    {"name": "stress:range-writer-starmap-module-helper", "edits": _range_starmap_helper("end - 1")},
+    {"name": "stress:options-quoted-value-by-atomic-regex", "edits": _scan_regex('''(?>\\\\[\\\\"]|[^"])*''')},
+    {"name": "stress:parse-age-contextlib-suppress", "edits": _pa_suppress("timedelta(seconds=seconds)")},
+    {"name": "stress:headerset-separator-hoisted-to-module-constant", "edits": _hs_separator(", ")},
+]
+MUTANTS += [
+    {"name": "stress:quote-needs-quotes-flag-all-for-any", "expect": "R6.1", "edits": _q_needs_quotes("all")},
+    {"name": "stress:options-unquote-table-without-backslash-pair", "expect": "R6.2", "edits": _unq_table(_ESC_NO_BACKSLASH)},
+    {"name": "stress:options-unquote-module-table-without-backslash-pair", "expect": "R6.2", "edits": _unq_table("_parameter_escapes", f"_parameter_escapes = {_ESC_NO_BACKSLASH}\n\n\n")},
+    {"name": "stress:quote-escape-loop-quote-before-backslash", "expect": "R6.2", "edits": _q_escape_loop('''('"', "\\\\")''')},
+    {"name": "stress:range-writer-map-static-helper-no-offset", "expect": "R6.4", "edits": _range_static_helper("end")},
+    {"name": "stress:range-writer-starmap-module-helper-no-offset", "expect": "R6.4", "edits": _range_starmap_helper("end")},
+    {"name": "stress:options-quoted-value-regex-stops-at-escaped-quote", "expect": "R6.7", "edits": _scan_regex('''[^"]*''')},
+    {"name": "stress:parse-age-contextlib-suppress-minutes", "expect": "R6.10", "edits": _pa_suppress("timedelta(minutes=seconds)")},
+    {"name": "stress:headerset-hoisted-separator-semicolon", "expect": "R6.5", "edits": _hs_separator("; ")},
+]
+
+
+def _po_phase_helpers(unquote: str | None = None) -> list:
+    """parse_options_header split along its phases: a helper that scans the parts (returning the list from inside its
+    `while True` loop) and a helper that decodes them."""
+    edits = [
+        (H, "    # Collect all valid key=value parts without processing the value.\n    parts: list[tuple[str, str]] = []\n",
+         "    return value, _decode_option_parts(_scan_option_parts(rest))\n\n\ndef _scan_option_parts(rest: str) -> list[tuple[str, str]]:\n    parts: list[tuple[str, str]] = []\n"),
+        (H, "        if (end := rest.find(\";\")) == -1:\n            break\n", "        if (end := rest.find(\";\")) == -1:\n            return parts\n"),
+        (H, "    options: dict[str, str] = {}\n    encoding: str | None = None\n", "\ndef _decode_option_parts(parts: list[tuple[str, str]]) -> dict[str, str]:\n    options: dict[str, str] = {}\n    encoding: str | None = None\n"),
+        (H, "    return value, options\n", "    return options\n"),
+    ]
+    if unquote is not None:
+        edits.append((H, OPT_UNQ, unquote))
+    return edits
+
+
+TWINS += [
+    {"name": "stress:options-parser-split-into-scan-and-decode-helpers", "edits": _po_phase_helpers()},
+]
+MUTANTS += [
+    {"name": "stress:options-parser-phase-helpers-decode-forgets-backslash-pair", "expect": "R6.2", "edits": _po_phase_helpers('''            pv = pv[1:-1].replace('\\\\"', '"').replace("%22", '"')\n''')},
+]
+
+# -- second batch of fresh refactorings: a writer that hands its work to another public writer, a local generator closure,
+#    a quoted text assembled fragment by fragment in a list
+DUMP_SPLIT = (H, DUMP_BODY, '''    if isinstance(iterable, dict):
+        return _dump_dict_header(iterable)
+
+    return _dump_list_header(iterable)
+
+
+def _dump_dict_header(mapping: dict[str, t.Any]) -> str:
+    items = []
+
+    for key, value in mapping.items():
+        if value is None:
+            item = key
+        elif key[-1] == "*":
+            item = "{}={}".format(key, value)
+        else:
+            item = "{}={}".format(key, quote_header_value(value))
+
+        items.append(item)
+
+    return ", ".join(items)
+
+
+def _dump_list_header(iterable: t.Iterable[t.Any]) -> str:
+    items = []
+
+    for item in iterable:
+        items.append(quote_header_value(item))
+
+    return ", ".join(items)
+''')
+OPT_ALL = "    segments = []\n\n    if header is not None:\n        segments.append(header)\n\n" + OPT_LOOP
+Q_ALL = "    if not value_str:\n        return '\"\"'\n\n" + Q_TAIL
+
+
+def _opt_closure(plain: str) -> list:
+    return [(H, OPT_ALL, f'''
+    def iter_segments() -> t.Iterator[str]:
+        if header is not None:
+            yield header
+
+        for key, value in options.items():
+            if value is None:
+                continue
+
+            if key[-1] == "*":
+                yield f"{{key}}={{value}}"
+            else:
+                yield {plain}
+
+    return "; ".join(iter_segments())
+''')]
+
+
+def _opt_closure_function(quoted: str) -> list:
+    return [(H, OPT_ALL, f'''
+    def dump_parameter(key: str, value: t.Any) -> str:
+        if key[-1] == "*":
+            return f"{{key}}={{value}}"
+
+        return f"{{key}}={{{quoted}}}"
+
+    segments = [] if header is None else [header]
+    segments += [dump_parameter(key, value) for key, value in options.items() if value is not None]
+    return "; ".join(segments)
+''')]
+
+
+def _q_piecewise(escaped: str) -> list:
+    return [(H, Q_ALL, f'''    if allow_token and value_str and _token_chars.issuperset(value_str):
+        return value_str
+
+    quoted = ['"']
+
+    for char in value_str:
+        if char in {escaped}:
+            quoted.append("\\\\")
+
+        quoted.append(char)
+
+    quoted.append('"')
+    return "".join(quoted)
+''')]
+
+
+TWINS += [
+    {"name": "stress:headerset-writer-delegates-to-dump-header-split-by-branch", "edits": [DUMP_SPLIT, (S, HS_TO_HEADER, "        return http.dump_header(self._headers)\n")]},
+    {"name": "stress:options-writer-local-generator-closure", "edits": _opt_closure('f"{key}={quote_header_value(value)}"')},
+    {"name": "stress:options-writer-local-function-closure", "edits": _opt_closure_function("quote_header_value(value)")},
+    {"name": "stress:quote-assembled-character-by-character-in-a-list", "edits": _q_piecewise('''('"', "\\\\")''')},
+    {"name": "stress:options-writer-parameters-joined-then-header-prepended", "edits": [(H, OPT_ALL, '''    params = "; ".join(
+        f"{key}={value if key[-1] == '*' else quote_header_value(value)}"
+        for key, value in options.items()
+        if value is not None
+    )
+
+    if header is None:
+        return params
+
+    return f"{header}; {params}" if params else header
+''')]},
+]
+MUTANTS += [
+    {"name": "stress:headerset-writer-delegates-a-mapping-keys-written-bare", "expect": "R6.5", "edits": [DUMP_SPLIT, (S, HS_TO_HEADER, "        return http.dump_header(dict.fromkeys(self._headers))\n")]},
+    {"name": "stress:options-writer-generator-closure-value-raw", "expect": "R6.5", "edits": _opt_closure('f"{key}={value}"')},
+    {"name": "stress:options-writer-function-closure-value-raw", "expect": "R6.5", "edits": _opt_closure_function("value")},
+    {"name": "stress:quote-assembled-piecewise-backslash-not-escaped", "expect": "R6.2", "edits": _q_piecewise('''('"',)''')},
+]
